@@ -360,7 +360,7 @@ Definition read_block_items_maybe (multiple : bool) (ls : list str) : rb_items :
   else match read_block ls with
        | RBBErr => RBIErr
        | RBB [] k => RBI [] k
-       | RBB t k => RBI [splitlines t] k
+       | RBB t k => RBI [split_nl t] k          (* one_block.split("\n") since the C13-F9 repair *)
        end.
 
 Inductive sec_body := BItems (items : list pitem) | BExamples (chunks : list (bool * str)).
